@@ -111,7 +111,23 @@ DV = "Dict[str, int]"
 DPRE = ["len(v) <= 2", "all(k in ('a', 'b', 'a b') for k in v)"]
 LV = "List[Union[int, bool]]"
 
+def _used_base_then_child(m):
+    """a hand-written child of a model class that has ALREADY validated something"""
+    from vf.common import Object, Property, Number, Integer, accepts
+
+    Base = Object.inline("Base", properties={"a": Property(Number(minimum=m), required=True)}, additionalProperties=Integer())
+    accepts(Base, {"a": m})
+    accepts(Base, {"a": m, "zz": 1})
+
+    class Child(Base):  # type: ignore
+        b_ = Property(Number(), source="b")
+        ab_ = Property(Integer(default=1), source="a b")
+
+    return Child
+
+
 TEMPLATES = {
+    "child_of_used_base": ("mn: int", "_used_base_then_child(mn)", "FLAGS:a,b,a b", [], "quick"),
     "obj_untyped": ("mn: int", 'parse_s({"properties": {"a": {"minimum": mn}, "a b": {"type": "integer"}, "b": {"default": 3}}, "patternProperties": {"b$": {"maximum": mn}}})', DV, DPRE, "quick"),
     "obj_typed": ("mn: int", 'parse_s({"type": "object", "title": "T", "properties": {"a": {"type": "number", "minimum": mn}, "a b": {"type": "integer"}, "b": {"default": 3}}, "patternProperties": {"b$": {"maximum": mn}}, "additionalProperties": {"type": "number"}})', "FLAGS:a,b,a b", [], "quick"),
     "obj_dsl_renamed": ("mn: int", 'Object.inline("M", properties={"a_": Property(Number(minimum=mn), source="a", required=True), "b": Property(Integer(default=1)), "ab_": Property(Element(), source="a b")})', "FLAGS:a,b,a b", [], "quick"),
@@ -145,8 +161,28 @@ def _flags(names, inner=None):
     return args, "\n".join(lines)
 
 
+def _demo_collision():
+    """input holds a renamed property's JSON name AND a member named like its Python attribute"""
+    from vf.common import Element, Property, Integer
+
+    def make():
+        return Element(properties={"a_": Property(Integer(), source="a")})
+
+    return not complete_ok(make, {"a": 1, "a_": 2})
+
+
+DEMOS = {"C04-attribute-name-collision": _demo_collision}
+
+
 def harnesses(ctx) -> List[H]:
     hs: List[H] = []
+    # pool contains the Python attribute names of the renamed properties as well
+    excl = ctx.excl("C04-attribute-name-collision", "not (('a' in v and 'a_' in v) or ('a b' in v and 'a_b' in v))")
+    hs.append(mk("c04_names_and_attribute_names", "mn: int, v: Dict[str, int]", ["len(v) <= 2", "all(k in ('a', 'a_', 'a b', 'a_b', 'z') for k in v)"] + excl, """
+def make():
+    return Element(properties={"a_": Property(Integer(minimum=mn), source="a"), "a_b": Property(Integer(), source="a b")}, additionalProperties=Integer(maximum=mn))
+return complete_ok(make, v)
+""", timeout=150, group="complete", covers="members named like the Python attribute of a renamed property, next to / instead of its JSON name"))
     for name, (hargs, make, vt, pre, tier) in TEMPLATES.items():
         setup = ""
         vargs = f"v: {vt}"
@@ -176,6 +212,3 @@ return not accepted(make, v)
 """
         hs.append(mk(f"c04_{name}__acc", f"{hargs}, {vargs}", pre, body, kind="witness", tier=tier, timeout=30, group="complete"))
     return hs
-
-
-DEMOS = {}
